@@ -216,6 +216,7 @@ pub fn check(ctx: &mut Ctx) {
     let mo = all_opts();
     ctx.random("mutated-ast", 400, 150_000, 2_000_000, |t| junkgen::gen_mutated(t, &mo), |c, obs| oracle(c, obs, false));
     minimize_src_failure(ctx, "mutated-ast");
+    cli_exit_status(ctx);
     if ctx.tier == Tier::Thorough {
         let pairs = all_pairs(true);
         let mut seeds = vec![];
@@ -252,7 +253,9 @@ fn minimize_src_failure(ctx: &mut Ctx, sub: &str) {
     }
 }
 
-pub fn replay(_sub: &str, case: &Value, obs: &mut Obs) -> Result<Verdict, String> {
+pub fn replay(sub: &str, case: &Value, obs: &mut Obs) -> Result<Verdict, String> {
+    // cases of the cli-exit-status sub-check are (JunkCase, mode); the library oracle is run on the JunkCase
+    let case = if sub == "cli-exit-status" { &case[0] } else { case };
     replay_case::<JunkCase, _>(case, obs, |c, obs| {
         obs.eval();
         oracle(c, obs, false)
@@ -334,4 +337,74 @@ pub fn isolate_abort(exe: &std::path::Path, tier: Tier, seed: u64) -> i32 {
     ctx.stats.samples.push(serde_json::to_value(&mc).unwrap_or(Value::Null));
     ctx.failure = Some(Failure { broken: false, sub: "process-abort".into(), case: serde_json::to_value(&mc).unwrap_or(Value::Null), tape: None, message: msg });
     ctx.finish()
+}
+
+
+/// Second observation point: the exit status of the chiritori binary on junk documents.
+fn cli_exit_status(ctx: &mut Ctx) {
+    use crate::cli::{cli_available, rfc3339, run_cli};
+    if ctx.failed() {
+        return;
+    }
+    if !cli_available() {
+        ctx.inconclusive = Some("chiritori binary not built (bin/build cli)".into());
+        return;
+    }
+    let n_cases = ctx.tier.pick(1500u64, 15000u64);
+    let mut soup_delims: Vec<(&'static str, &'static str)> = REGULAR_DELIMS.to_vec();
+    soup_delims.extend(HOSTILE_DELIMS.iter().copied());
+    let ho = hostile_opts();
+    ctx.max_shrink_iters = 200;
+    ctx.random(
+        "cli-exit-status",
+        300,
+        n_cases,
+        n_cases * 10,
+        |t| {
+            let c = if t.chance(50) { junkgen::gen_soup(t, &soup_delims, true) } else { gen_ast_case_with(t, &ho) };
+            (c, t.below(4))
+        },
+        |(c, mode), obs| {
+            let mut args = vec![
+                format!("--delimiter-start={}", c.cfg.ds),
+                format!("--delimiter-end={}", c.cfg.de),
+                format!("--time-limited-tag-name={}", c.cfg.tl_tag),
+                format!("--removal-marker-tag-name={}", c.cfg.rm_tag),
+                format!("--time-limited-time-offset={}", c.cfg.offset),
+                format!("--time-limited-current={}", rfc3339(c.cfg.now.min(253_402_300_799), 0)),
+            ];
+            for t in &c.cfg.targets {
+                args.push(format!("--removal-marker-target-name={t}"));
+            }
+            match mode {
+                1 => args.push("--list".into()),
+                2 => {
+                    args.push("--list-all".into());
+                    args.push("--list-json".into());
+                }
+                3 => args.push("--list-all".into()),
+                _ => {}
+            }
+            match run_cli(&args, Some(c.src.as_bytes()), &[], None) {
+                Err(e) => Verdict::Broken(e),
+                Ok(o) => {
+                    if o.status != 0 || o.stderr.contains("panicked") {
+                        return Verdict::Fail(format!("chiritori {:?} exited with status {} on standard input {:?}; stderr: {}", args, o.status, truncate(&c.src, 1200), truncate(&o.stderr, 400)));
+                    }
+                    if *mode == 2 && serde_json::from_slice::<Value>(&o.stdout).is_err() {
+                        return Verdict::Fail(format!("chiritori {:?} printed invalid JSON on standard input {:?}", args, truncate(&c.src, 1200)));
+                    }
+                    if std::str::from_utf8(&o.stdout).is_err() {
+                        return Verdict::Fail(format!("chiritori {:?} printed invalid UTF-8", args));
+                    }
+                    if !ref_tags(&c.src, &c.cfg.ds, &c.cfg.de).is_empty() {
+                        obs.class("cli-run-with-tags");
+                        obs.nontrivial(&(c, mode), || json!({"args": args, "stdin": c.src}));
+                    }
+                    Verdict::Pass
+                }
+            }
+        },
+    );
+    ctx.max_shrink_iters = 40_000;
 }
